@@ -1,5 +1,8 @@
-"""(re)write the C03 entries of known_findings.json: each witness is run on /repo and must differ
-from what MongoDB defines (`expected`) before it is written.  Run by hand; never at check time."""
+"""(re)write the C03 entries of known_findings.json: each witness is run on the library and must
+differ from what MongoDB defines (`expected`) before it is written as `known`; a witness on which
+the library now answers `expected` and whose repair is listed in FIXED becomes a `fixed` record
+(the witness is kept: props/c03.py runs it on every check as a regression case).  Run by hand;
+never at check time."""
 import json
 import os
 import sys
@@ -46,6 +49,16 @@ W = [
      'preserveNullAndEmptyArrays',
      [{'_id': 0}], [], [{'$unwind': {'path': '$l', 'preserveNullAndEmptyArrays': True,
                                      'includeArrayIndex': 'i'}}], [{'_id': 0, 'i': None}]),
+    ('unwindindexparent', '$unwind with includeArrayIndex naming a dotted path whose parent does '
+     'not exist raises KeyError (helpers.set_value_by_dot does not create the parent); MongoDB '
+     'creates the sub-document',
+     [{'_id': 1, 'l': [5, 6]}], [], [{'$unwind': {'path': '$l', 'includeArrayIndex': 'zz.i'}}],
+     [{'_id': 1, 'l': 5, 'zz': {'i': 0}}, {'_id': 1, 'l': 6, 'zz': {'i': 1}}]),
+    ('accmissing', 'an accumulator argument is evaluated without the missing-field convention of '
+     "computed fields: {$push: {$add: ['$a', '$zz']}} on {a: 5} contributes nothing (p: []) where "
+     'the rules give [null]',
+     [{'_id': 0, 'a': 5}], [], [{'$group': {'_id': None, 'p': {'$push': {'$add': ['$a', '$zz']}}}}],
+     [{'p': [None], '_id': None}]),
     ('lookupboolnum', '$lookup joins true to 1 (Python ==)',
      [{'_id': 0, 'k': True}], [{'_id': 10, 'fk': 1}],
      [{'$lookup': {'from': 'other', 'localField': 'k', 'foreignField': 'fk', 'as': 'j'}}],
@@ -67,10 +80,30 @@ W = [
 ]
 
 
+# id -> (fix: commit, what failed before it)
+FIXED = {
+    'countempty': '482a7bb',
+    'groupnullempty': 'f041969',
+    'groupfalsyid': 'fafbe61',
+    'addtosetfalsy': '53f015f',
+    'firstmissing': '3203d3e',
+    'minmaxtypes': '94aa9ad',
+    'sumbool': '2f66991',
+    'unwindindex': '36bb490',
+    'unwindindexparent': '5c2730e',
+    'multiopstage': '2432305',
+    'neglimit': '2ed0182',
+    'projectidexcl': '9a73353',
+    'accmissing': '6085e72',
+    'addfieldsorder': 'eb8f57c',
+}
+
+
 def main():
     path = os.path.join(common.VERIF, 'known_findings.json')
     data = json.load(open(path))
-    data['findings'] = [e for e in data['findings'] if e.get('property') != 'C03']
+    old = data['findings']
+    data['findings'] = []
     for fid, what, docs, other, pipeline, expected in W:
         case = {'docs': docs, 'other': other, 'pipeline': pipeline}
         oids = wire.Oids()
@@ -78,16 +111,47 @@ def main():
         py = c03.show(c03.agg(db.c, pipeline), oids)
         exp = 'E' if expected == 'E' else wire.encs(expected, oids)
         model = wire.run_driver([c03.case_line(case, oids)])[0]
-        if c03.norm(py) == exp:
-            print('NOT A FINDING (python follows MongoDB):', fid, py)
-            continue
         impl = model.split('|')[0].strip()
+        if c03.norm(py) == exp:
+            if fid not in FIXED:
+                print('NOT A FINDING (python follows MongoDB):', fid, py)
+                continue
+            commit = FIXED[fid]
+            print('%-16s FIXED by %s python=%s model-agrees=%s' % (
+                fid, commit, wire.dec(py) if not py.startswith('!') else py, impl == py))
+            w = c03.render(case)
+            w.update({'expected': exp, 'python': py})
+            data['findings'].append({
+                'property': 'C03', 'id': fid, 'status': 'fixed', 'what': what, 'witness': w,
+                'commit': commit,
+                'fixed': 'fixed: property=C03 %s %s' % (commit, what)})
+            continue
+        if fid in FIXED:
+            print('LISTED AS FIXED BUT STILL DEVIATES:', fid, py)
         print('%-16s python=%s model-agrees=%s' % (fid, wire.dec(py) if not py.startswith('!') else py,
                                                    impl == py))
         w = c03.render(case)
         w.update({'expected': exp, 'python': py})
         data['findings'].append({'property': 'C03', 'id': fid, 'status': 'known', 'what': what,
                                  'witness': w})
+    # every entry keeps its place in the file; new ones go to the end
+    new = {e['id']: e for e in data['findings']}
+    merged = []
+    for e in old:
+        if e.get('property') != 'C03':
+            merged.append(e)
+        elif e['id'] in new:
+            n = new.pop(e['id'])
+            if n['status'] == 'fixed':
+                # what the library answered while the finding was open stays on record
+                ow = e.get('witness', {})
+                before = ow.get('python_before_fix') or (ow.get('python') if e.get('status') == 'known'
+                                                         else None)
+                if before:
+                    n['witness']['python_before_fix'] = before
+            merged.append(n)
+    merged.extend(new.values())
+    data['findings'] = merged
     with open(path, 'w') as fh:
         json.dump(data, fh, indent=1, default=repr)
         fh.write('\n')
